@@ -420,33 +420,35 @@ Definition key (c p : N) : N := c * 65536 + p.
 Record ost := mkO {
   o_q : quotas;
   o_live : list (N * N);       (* channel -> subject: created, cleanup not finished *)
-  o_term : list N;             (* cleanup started *)
+  o_term : list N;       (* cleanup started *)
   o_nextc : N;
-  o_subs : list (N * N);       (* key c p -> offset last notified to this subscription *)
+  o_subs : list (N * N);       (* key c p -> offset last notified to this subscription (instance) *)
   o_last : list (N * N);       (* projection -> offset of the last Update *)
-  o_bad : list N;              (* projections whose updates were not non-decreasing (outside the domain) *)
-  o_maxrep : list (N * N);     (* key c p -> largest offset reported so far *)
-  o_watch : list N;            (* channels with a running WatchChannel *)
-  o_open : N;                  (* API calls in flight *)
-  o_parked : bool;             (* between markers 0 and 1: no watcher may have moved *)
+  o_bad : list N;       (* projections whose updates were not non-decreasing (outside the domain of the delivery clauses) *)
+  o_maxrep : list (N * N);       (* key c p -> largest offset reported so far *)
+  o_snap : list N;       (* keys whose subscription existed at the channel's last scan and still is the same subscription *)
+  o_watch : list N;       (* channels with a running WatchChannel *)
+  o_open : N;       (* API calls in flight *)
+  o_parked : bool;       (* between markers 0 and 1: no watcher may have moved *)
   o_final : bool;
   o_ok : bool }.
 
-Definition o0 (q : quotas) := mkO q [] [] 0 [] [] [] [] [] 0 false false true.
+Definition o0 (q : quotas) := mkO q [] [] 0 [] [] [] [] [] [] 0 false false true.
 Definition getd (k : N) (m : list (N * N)) : N := match get k m with Some v => v | None => 0 end.
-Definition fail (o : ost) := mkO (o_q o) (o_live o) (o_term o) (o_nextc o) (o_subs o) (o_last o) (o_bad o) (o_maxrep o) (o_watch o) (o_open o) (o_parked o) (o_final o) false.
+Definition fail (o : ost) := mkO (o_q o) (o_live o) (o_term o) (o_nextc o) (o_subs o) (o_last o) (o_bad o) (o_maxrep o) (o_snap o) (o_watch o) (o_open o) (o_parked o) (o_final o) false.
 Definition chk (b : bool) (o : ost) := if b then o else fail o.
-Definition w_live o x := mkO (o_q o) x (o_term o) (o_nextc o) (o_subs o) (o_last o) (o_bad o) (o_maxrep o) (o_watch o) (o_open o) (o_parked o) (o_final o) (o_ok o).
-Definition w_term o x := mkO (o_q o) (o_live o) x (o_nextc o) (o_subs o) (o_last o) (o_bad o) (o_maxrep o) (o_watch o) (o_open o) (o_parked o) (o_final o) (o_ok o).
-Definition w_nextc o x := mkO (o_q o) (o_live o) (o_term o) x (o_subs o) (o_last o) (o_bad o) (o_maxrep o) (o_watch o) (o_open o) (o_parked o) (o_final o) (o_ok o).
-Definition w_subs o x := mkO (o_q o) (o_live o) (o_term o) (o_nextc o) x (o_last o) (o_bad o) (o_maxrep o) (o_watch o) (o_open o) (o_parked o) (o_final o) (o_ok o).
-Definition w_last o x := mkO (o_q o) (o_live o) (o_term o) (o_nextc o) (o_subs o) x (o_bad o) (o_maxrep o) (o_watch o) (o_open o) (o_parked o) (o_final o) (o_ok o).
-Definition w_bad o x := mkO (o_q o) (o_live o) (o_term o) (o_nextc o) (o_subs o) (o_last o) x (o_maxrep o) (o_watch o) (o_open o) (o_parked o) (o_final o) (o_ok o).
-Definition w_maxrep o x := mkO (o_q o) (o_live o) (o_term o) (o_nextc o) (o_subs o) (o_last o) (o_bad o) x (o_watch o) (o_open o) (o_parked o) (o_final o) (o_ok o).
-Definition w_watch o x := mkO (o_q o) (o_live o) (o_term o) (o_nextc o) (o_subs o) (o_last o) (o_bad o) (o_maxrep o) x (o_open o) (o_parked o) (o_final o) (o_ok o).
-Definition w_open o x := mkO (o_q o) (o_live o) (o_term o) (o_nextc o) (o_subs o) (o_last o) (o_bad o) (o_maxrep o) (o_watch o) x (o_parked o) (o_final o) (o_ok o).
-Definition w_parked o x := mkO (o_q o) (o_live o) (o_term o) (o_nextc o) (o_subs o) (o_last o) (o_bad o) (o_maxrep o) (o_watch o) (o_open o) x (o_final o) (o_ok o).
-Definition w_final o x := mkO (o_q o) (o_live o) (o_term o) (o_nextc o) (o_subs o) (o_last o) (o_bad o) (o_maxrep o) (o_watch o) (o_open o) (o_parked o) x (o_ok o).
+Definition w_live o x := mkO (o_q o) x (o_term o) (o_nextc o) (o_subs o) (o_last o) (o_bad o) (o_maxrep o) (o_snap o) (o_watch o) (o_open o) (o_parked o) (o_final o) (o_ok o).
+Definition w_term o x := mkO (o_q o) (o_live o) x (o_nextc o) (o_subs o) (o_last o) (o_bad o) (o_maxrep o) (o_snap o) (o_watch o) (o_open o) (o_parked o) (o_final o) (o_ok o).
+Definition w_nextc o x := mkO (o_q o) (o_live o) (o_term o) x (o_subs o) (o_last o) (o_bad o) (o_maxrep o) (o_snap o) (o_watch o) (o_open o) (o_parked o) (o_final o) (o_ok o).
+Definition w_subs o x := mkO (o_q o) (o_live o) (o_term o) (o_nextc o) x (o_last o) (o_bad o) (o_maxrep o) (o_snap o) (o_watch o) (o_open o) (o_parked o) (o_final o) (o_ok o).
+Definition w_last o x := mkO (o_q o) (o_live o) (o_term o) (o_nextc o) (o_subs o) x (o_bad o) (o_maxrep o) (o_snap o) (o_watch o) (o_open o) (o_parked o) (o_final o) (o_ok o).
+Definition w_bad o x := mkO (o_q o) (o_live o) (o_term o) (o_nextc o) (o_subs o) (o_last o) x (o_maxrep o) (o_snap o) (o_watch o) (o_open o) (o_parked o) (o_final o) (o_ok o).
+Definition w_maxrep o x := mkO (o_q o) (o_live o) (o_term o) (o_nextc o) (o_subs o) (o_last o) (o_bad o) x (o_snap o) (o_watch o) (o_open o) (o_parked o) (o_final o) (o_ok o).
+Definition w_snap o x := mkO (o_q o) (o_live o) (o_term o) (o_nextc o) (o_subs o) (o_last o) (o_bad o) (o_maxrep o) x (o_watch o) (o_open o) (o_parked o) (o_final o) (o_ok o).
+Definition w_watch o x := mkO (o_q o) (o_live o) (o_term o) (o_nextc o) (o_subs o) (o_last o) (o_bad o) (o_maxrep o) (o_snap o) x (o_open o) (o_parked o) (o_final o) (o_ok o).
+Definition w_open o x := mkO (o_q o) (o_live o) (o_term o) (o_nextc o) (o_subs o) (o_last o) (o_bad o) (o_maxrep o) (o_snap o) (o_watch o) x (o_parked o) (o_final o) (o_ok o).
+Definition w_parked o x := mkO (o_q o) (o_live o) (o_term o) (o_nextc o) (o_subs o) (o_last o) (o_bad o) (o_maxrep o) (o_snap o) (o_watch o) (o_open o) x (o_final o) (o_ok o).
+Definition w_final o x := mkO (o_q o) (o_live o) (o_term o) (o_nextc o) (o_subs o) (o_last o) (o_bad o) (o_maxrep o) (o_snap o) (o_watch o) (o_open o) (o_parked o) x (o_ok o).
 
 Definition subj_of (o : ost) (c : N) : N := getd c (o_live o).
 Definition chans_of_subj (o : ost) (subj : N) : N := lenN (filter (fun x => snd x =? subj) (o_live o)).
@@ -463,11 +465,25 @@ Definition quiet_ok (o : ost) : bool :=
     | Some _ => memN c (o_term o) || negb (memN c (o_watch o)) || memN p (o_bad o) || (snd kn =? getd p (o_last o))
     end) (o_subs o).
 
+Definition chan_of_key (k : N) : N := k / 65536.
+Definition unsnap (k : N) (o : ost) : ost := w_snap o (filter (fun x => negb (x =? k)) (o_snap o)).
+(* a scan collects units of the subscriptions that exist at that moment *)
+Definition snap_chan (c : N) (o : ost) : ost :=
+  w_snap o (filter (fun x => negb (chan_of_key x =? c)) (o_snap o) ++ filter (fun x => chan_of_key x =? c) (map fst (o_subs o))).
+
 Definition deliver1 (c : N) (o : ost) (po : N * N) : ost :=
   let k := key c (fst po) in
+  (* across unsubscribe / re-subscribe: only where the projection's updates did not decrease *)
   let o1 := chk (memN (fst po) (o_bad o) || (getd k (o_maxrep o) <=? snd po)) o in
   let o2 := w_maxrep o1 (set k (N.max (getd k (o_maxrep o1)) (snd po)) (o_maxrep o1)) in
-  match get k (o_subs o2) with Some _ => w_subs o2 (set k (snd po) (o_subs o2)) | None => o2 end.
+  (* within one subscription reports never decrease, whatever the updates do; a unit collected
+     for an earlier subscription of the same key says nothing about the present one *)
+  if memN k (o_snap o2) then
+    match get k (o_subs o2) with
+    | Some n => w_subs (chk (n <=? snd po) o2) (set k (snd po) (o_subs o2))
+    | None => o2
+    end
+  else o2.
 
 Definition met_ok (o : ost) (nch nsub : N) (subj : list (N * (N * N))) (psub : list (N * N)) : bool :=
   let q := o_q o in
@@ -488,17 +504,18 @@ Definition observe (o : ost) (e : ev) : ost :=
       w_open (w_last o1 (set p x (o_last o1))) (o_open o1 + 1)
   | (AUpdEnq _, _) | (ASubEnq _ _, _) | (AUnsEnq _ _, _) => w_open o (o_open o - 1)
   | (ASubReg c p, ORes ROk) =>
-      let o1 := match get (key c p) (o_subs o) with Some _ => o | None => w_subs o (set (key c p) 0 (o_subs o)) end in
+      let o1 := match get (key c p) (o_subs o) with Some _ => o | None => unsnap (key c p) (w_subs o (set (key c p) 0 (o_subs o))) end in
       let o2 := w_open o1 (o_open o1 + 1) in
       chk ((lenN (o_subs o2) <=? q_sub (o_q o)) && (subs_of_subj o2 (subj_of o2 c) <=? q_subs (o_q o))) o2
-  | (AUnsReg c p, ORes ROk) => w_open (w_subs o (del (key c p) (o_subs o))) (o_open o + 1)
-  | (AUnsReg c p, ORes ROkNoProj) => w_subs o (del (key c p) (o_subs o))
+  | (AUnsReg c p, ORes ROk) => w_open (unsnap (key c p) (w_subs o (del (key c p) (o_subs o)))) (o_open o + 1)
+  | (AUnsReg c p, ORes ROkNoProj) => unsnap (key c p) (w_subs o (del (key c p) (o_subs o)))
   | (AClnTerm c, ORes ROk) => w_open (w_term o (sadd c (o_term o))) (o_open o + 1)
-  | (AClnReg c p, _) => w_open (w_subs o (del (key c p) (o_subs o))) (o_open o + 1)
+  | (AClnReg c p, _) => w_open (unsnap (key c p) (w_subs o (del (key c p) (o_subs o)))) (o_open o + 1)
   | (AClnFin c, _) => w_open (w_live o (del c (o_live o))) (o_open o - 1)
   | (AWStart c, ORes ROk) => w_watch o (sadd c (o_watch o))
   | (AWStop c, _) => w_watch o (filter (fun x => negb (x =? c)) (o_watch o))
-  | (AWTake _, _) | (AWScan _, _) => watcher_moved o
+  | (AWTake _, _) => watcher_moved o
+  | (AWScan c, _) => snap_chan c (watcher_moved o)
   | (AWDeliver c, OUnits u) => fold_left (deliver1 c) u (watcher_moved o)
   | (AProbe, OMet nch nsub subj psub) => chk (met_ok o nch nsub subj psub) o
   | (AMark m, _) =>
